@@ -100,6 +100,8 @@ static CaseResult run_twin_case_impl(Runner& R, uint64_t case_seed, const std::s
     int                     since_event = 1000; // ops since the last range / splice / clear (trigger: continuation length)
     bool                    had_event   = false;
     bool                    size_suspended = false;
+    bool                    mon_failed = false;
+    Violation               mon_viol;
     size_t                  continuation = 0;
     if (print)
         std::printf("%s\n", cr.cfg_text.c_str());
@@ -145,11 +147,28 @@ static CaseResult run_twin_case_impl(Runner& R, uint64_t case_seed, const std::s
         bool      okA = mon.step(op, ra, pa, nullptr, now, v);
         if (!okA)
         {
-            cr.lines.push_back(line + "  -> " + res_to_text(op, ra) + "  size=" + std::to_string(pa.size));
-            cr.violated      = true;
-            v.op_index       = (int)i;
-            cr.viol          = v;
-            break;
+            // The follower lost track of A (a sequential clause is violated).  The twins themselves are still
+            // comparable: finish this step's comparison - including an audit of both - so that a difference between
+            // the twins is reported under this check's property as well, then stop.
+            mon_failed       = true;
+            {
+                std::vector<AuditRow> rowsX;
+                run_audit(A.get(), cfg, &pre, plan.audit_skip_u && kind_is_ttllru(cfg.kind), rowsX);
+                Violation v2;
+                mon.explain_with_audit(op, ra, pa, rowsX, now, v2);
+                if (!v2.tags.empty())
+                    v = v2;
+                // (A alone gets these extra side-effect-free lookups: they are no-effect calls by specification)
+            }
+            mon_viol         = v;
+            mon_viol.op_index = (int)i;
+            if (top.a_only)
+            {
+                cr.lines.push_back(line + "  -> " + res_to_text(op, ra) + "  size=" + std::to_string(pa.size));
+                cr.violated = true;
+                cr.viol     = mon_viol;
+                break;
+            }
         }
         if (mon.inconclusive)
         {
@@ -286,7 +305,7 @@ static CaseResult run_twin_case_impl(Runner& R, uint64_t case_seed, const std::s
         bool do_audit = plan.audit_mode == 2 || (plan.audit_mode == 1 && (i % 4) == 3) || i + 1 == nops || (CLEARM && op.kind == CLEAR);
         if (fixed_ops && plan.audit_mode == 3)
             do_audit = top.audit;
-        if (!cr.violated && do_audit)
+        if (!cr.violated && (do_audit || mon_failed))
         {
             bool skip = plan.audit_skip_u && kind_is_ttllru(cfg.kind);
             journal_line("# audit");
@@ -296,16 +315,19 @@ static CaseResult run_twin_case_impl(Runner& R, uint64_t case_seed, const std::s
             Probe p2;
             A->probe(p2);
             Violation v2;
-            bool      ok = mon.audit_filter(op, ra, pa, rowsA, now, v2);
-            if (ok)
-                ok = monitor_post_audit(mon, p2, now, rowsA, v2);
-            if (!ok)
+            bool      ok = true;
+            if (!mon_failed)
             {
-                cr.violated      = true;
-                v2.op_index      = (int)i;
-                cr.viol          = v2;
+                ok = mon.audit_filter(op, ra, pa, rowsA, now, v2);
+                if (ok)
+                    ok = monitor_post_audit(mon, p2, now, rowsA, v2);
+                if (!ok)
+                {
+                    mon_failed        = true;
+                    mon_viol          = v2;
+                    mon_viol.op_index = (int)i;
+                }
             }
-            else
             {
                 std::string why;
                 if (!rows_equal(rowsA, rowsB, why))
@@ -320,6 +342,22 @@ static CaseResult run_twin_case_impl(Runner& R, uint64_t case_seed, const std::s
         cr.lines.push_back(line + "  -> " + res_to_text(op, ra) + "  size=" + std::to_string(pa.size) + (kind_is_ttl(cfg.kind) || cfg.kind == LFUDA ? "  t=" + std::to_string(now - T0) : ""));
         if (print)
             std::printf("%4zu  %s%s\n", i, cr.lines.back().c_str(), cr.violated ? "   <== twins differ" : "");
+        if (mon_failed)
+        {
+            if (cr.violated)
+            {
+                // the twins differ as well: report both the sequential clause and this check's clause
+                for (auto& t : mon_viol.tags)
+                    cr.viol.tags.push_back(t);
+                cr.viol.detail += " | follower: " + mon_viol.detail;
+            }
+            else
+            {
+                cr.violated = true;
+                cr.viol     = mon_viol;
+            }
+            break;
+        }
         if (had_event && !op_is_range(op.kind))
         {
             ++since_event;
